@@ -16,7 +16,8 @@ MOD = __name__
 
 PASS_THROUGH = ("map", "filter", "flatten", "flatten2", "pluck", "accumulate", "accumulate_nostart", "unique", "slice", "sliding_window",
                 "starmap", "union", "partition_unique")
-BUFFERING = ("buffer", "delay", "latest", "collect", "timed_window", "timed_window_unique", "map_async", "map_async_eager", "rate_limit")
+BUFFERING = ("buffer", "delay", "latest", "collect", "timed_window", "timed_window_unique", "map_async", "map_async_eager")
+# (rate_limit is not one of them: its update() sleeps and then awaits its consumer, so an emit through it covers the consumer)
 
 
 def _site(nodes):
